@@ -259,7 +259,9 @@ bool operator==(const Vector& v1, const Vector& v2)
 
 double Angle(const Vector& v1, const Vector& v2)
 {
-	return acos(v1 * v2 / (v1.Norm() * v2.Norm()));
+	// Rounding can carry the cosine of (anti)parallel vectors an ulp outside [-1,1], where acos is not defined.
+	double cosine = v1 * v2 / (v1.Norm() * v2.Norm());
+	return acos(std::max(std::min(cosine, 1.0), -1.0));
 }
 
 // 2. Coordinates
